@@ -518,12 +518,12 @@ def run(eng, rep):
     rep.explain("Also decided: trsbox_linear's face handling is reflection-equivariant (T14, C13-5); the geometry point is centre + an output of trsbox_linear over the box relative to the centre (C13-6); the projector list may be built by a helper (parameters mapped back through the call binding); each geometry routine returns the candidate with the larger |c + g.s| of the minimiser and the maximiser (C13-7).")
     rep.not_decided += ["box to 1e-12, global maximum of |c + g's| to 1e-6, ||d|| <= Delta(1+1e-8) (numerical)"]
     rep.note("C13", "dfols/trust_region.py:ctrsbox_geometry", "passes literal d_max_iters=100, d_tol=1e-10 instead of its own parameters (observation, not part of the statement)")
-    rule_ball_last(eng, rep)
-    rule_zero_step(eng, rep)
-    rule_geometry_frames(eng, rep)
-    rule_totality(eng, rep, rule="C13-4.totality-every-loop-is-bounded")
+    rep.guarded(rule_ball_last, eng, rep)
+    rep.guarded(rule_zero_step, eng, rep)
+    rep.guarded(rule_geometry_frames, eng, rep)
+    rep.guarded(rule_totality, eng, rep, rule="C13-4.totality-every-loop-is-bounded")
     from .mirrorrule import rule_mirror
-    rule_mirror(eng, rep, 'C13-5.lower-and-upper-face-handling-are-reflections', ['trust_region.trsbox_linear'])
-    rule_geometry_point_from_box_solver(eng, rep)
-    rule_geometry_step_is_the_better_candidate(eng, rep)
-    rule_step_routines_do_not_modify_their_arguments(eng, rep)
+    rep.guarded(rule_mirror, eng, rep, 'C13-5.lower-and-upper-face-handling-are-reflections', ['trust_region.trsbox_linear'])
+    rep.guarded(rule_geometry_point_from_box_solver, eng, rep)
+    rep.guarded(rule_geometry_step_is_the_better_candidate, eng, rep)
+    rep.guarded(rule_step_routines_do_not_modify_their_arguments, eng, rep)
